@@ -25,7 +25,8 @@ LEVEL_TEXT = ("Every circuit word up to the length bound (quick: all 1-letter wo
               "+ 3-letter words over 5 letters) x pre-processing patterns x measurement lists is differentiated under every autograd "
               "diff_method (12) and under param_shift / finite_diff applied to the QNode as transforms; the full configuration product (4 interfaces x 12 methods x grad_on_execution x device_vjp) runs on a fixed "
               "circuit subset; every Jacobian is compared with an independent finite-difference reference (1e-7; finite-diff 5e-6 / 1e-6; "
-              "spsa: exact average over all 2^p sign vectors, 1e-6).")
+              "spsa: exact average over all 2^p sign vectors, 1e-6). Composite costs (two classical rows in front of the QNode rows; a second QNode "
+              "evaluation) x interface x method x device_vjp on the fixed subset.")
 LEVEL_NOTE = ("Reference = plain-numpy state-vector simulation from closed-form gate matrices + 8th-order central differences (h=1e-2). "
               "Device = default.qubit without shots. Not decided: spsa with samplers other than the default Rademacher sampler; "
               "TensorFlow (not installed); finite shots (stochastic).")
